@@ -310,3 +310,31 @@ def handler_search_follows_the_records(ctx):
                       'skipped ("remote handler not found" on logging, *IDN? and disconnect)', u)
     if not n:
         raise AnchorMissing('walk up the logger chain (.handlers / .propagate / .parent) not found in setRemoteLogging')
+
+
+@rule('C20.R6', min_instances=2)
+def a_failing_connection_can_not_break_the_log_fan_out(ctx):
+    """RemoteLogHandler.emit hands each record to send_reply of every subscribed connection, from whatever thread logs.
+    send_reply (tcp and websocket, with the helper methods it uses) contains EVERY exception of the socket send in a
+    catch-all handler: with `except OSError` only, another failure of one connection (ssl / websocket library errors,
+    ValueError on a closed file object) escapes through emit() - the connections served after it lose the record, and
+    the exception surfaces in the module code that happened to log"""
+    from sa.lib import contained_by_catch_all, helper_methods_called
+    m = ctx.m
+    n = 0
+    for q, f in sorted(m.functions.items()):
+        if f.name != 'send_reply' or not f.module.name.startswith('frappy.protocol.interface') or f.cls is None:
+            continue
+        unit = [f] + [h for site, h in helper_methods_called(m, f)]
+        for g in unit:
+            for c in calls_in(g.node):
+                if call_attr(c) not in ('sendall', 'send'):
+                    continue
+                n += 1
+                ctx.analysed(g)
+                t, h = contained_by_catch_all(c)
+                ctx.check(t is not None, f'{g.qualname}:every failure of the send is contained', c, 'inside try / except Exception',
+                          f'`{src(c)}` is not inside a catch-all handler: an exception that is not among the ones caught here leaves send_reply, and with it '
+                          'RemoteLogHandler.emit - the remaining subscribers do not get the log record and the logging call itself raises', g)
+    if n < 2:
+        raise AnchorMissing('socket send in send_reply of the interfaces not found')
